@@ -560,7 +560,7 @@ pub fn run(cfg: &Cfg, rep: &mut Report) -> PropMeta {
     });
     PropMeta {
         id: "C08", level: "exploration",
-        rule: "exhaustive: every modulus 2..127 x every operand pair in [0,2q); single: boundary moduli (2^k, 2^k+-1, primes, 2^61-1, random of every bit size 2..61) x boundary operands (0,1,q-1,q,2q-2,2q-1,2^63,2^64-1,kq+-1,random); multi: word counts 1..8 with words from {0,1,2^63,2^64-1,equal,random}. distinct = distinct (modulus bits, operand bits) classes / exhaustive moduli / multi-word case buckets",
+        rule: "exhaustive: every modulus 2..127 x every operand pair in [0,2q); single: boundary moduli (2^k, 2^k+-1, primes, 2^61-1, random of every bit size 2..61) x boundary operands (0,1,q-1,q,2q-2,2q-1,2^63,2^64-1,kq+-1,random); multi: word counts 1..8 with words from {0,1,2^63,2^64-1,equal,random}. distinct = distinct (modulus bits, operand bits) classes / exhaustive moduli / multi-word case buckets. Includes the fixed two-word forms add_u128 / add_u128_inplace and the raw-modulus inversion try_invert_u64_mod_u64",
         assumptions: vec!["u128 arithmetic of rustc".into(), "harness BigU (cross-checked against Python integers by `hv selftest`)".into(),
             "documented domains: operands of add/sub/negate/div2 below the modulus, increment <= 2q-2, MultiplyU64ModOperand operand < q, exponentiate operand < q, multi-word buffers of equal length".into()],
         exhaustive: false, floor: 1000,
